@@ -29,13 +29,14 @@
     unchanged; no path panics;
   * `drain_keeps_allocation`, `change_keeps_allocation`.
 
-  Remaining assumption (carried by the correspondence, see C06): that `free_all` /
-  `reserve_all` / `recover` establish the *lower* invariant for every frame count
-  (`Trees::new` on top of it is proved: `C06.trees_new_establishes`). `CfgOk` is what a
+  `new_then_history`: construction with free-all / allocate-all (every frame count, arbitrary
+  buffer contents — C06) establishes the invariant, so the theorems cover every call of every
+  history of a freshly constructed allocator. For `Init::Recover` / `Init::None` the invariant of
+  the handed-over state is an assumption (C05 / C07). `CfgOk` is what a
   configuration has to satisfy: class ids < 8, ordered policy (all policies of the repository),
   tree size below 2^19 frames (the counter width of a local reservation) — `CfgOk.of_checks`.
 -/
-import LLFreeV.Proofs.UpperInit
+import LLFreeV.Proofs.EndToEnd
 import LLFreeV.Proofs.CfgOk
 namespace LLFree.C02
 open LLFree
@@ -132,5 +133,15 @@ example : CfgOk ⟨⟨9, 4⟩, 8192, [(0, 2), (1, 2)], 1, simplePolicy 2048⟩ :
       · exact ⟨_, rfl⟩
       · split <;> exact ⟨_, rfl⟩, rfl⟩
     (by decide)
+
+
+/-- **From `LLFree::new` on**: free-all or allocate-all construction (from arbitrary buffer
+    contents, any frame count) followed by any sequential history of valid-parameter calls
+    never panics and every intermediate state satisfies the invariant under which `put_refines`
+    and `get_refines` hold. -/
+theorem new_then_history (c : Cfg) (ok : CfgOk c) (init : Init) (hinit : init = .freeAll ∨ init = .allocAll)
+    (calls : List Call) (hvalid : ∀ x ∈ calls, x.valid c) (m : Mem) (hs : ShapeOk c m) (habs : ∀ s, SlotAbsent m s) :
+    Runs m (do initProg c init; runCalls c calls) (fun _ m' => ∃ H', UpperInv0 c H' m') :=
+  LLFree.new_then_history ok init hinit calls hvalid m hs habs
 
 end LLFree.C02
